@@ -34,8 +34,10 @@ func vc16OwnDev(g int) agd.DeviceID { return agd.DeviceID(fmt.Sprintf("devown%02
 // that mixes fields of two calls is detected.
 func vc16ConcMeta(g, k int) (m vc16Meta) {
 	return vc16Meta{
-		N:     k,
-		Time:  vc16Base.Add(time.Duration(g)*1000*time.Hour + time.Duration(k)*time.Second),
+		N: k,
+		// Not monotone in k: the start time of a query says nothing about
+		// when it is recorded.  (k*37)%50 repeats, so equal times occur too.
+		Time:  vc16Base.Add(time.Duration(g)*1000*time.Hour + time.Duration((k*37)%50)*time.Second),
 		Ctry:  vc16Ctrys[(g+k)%len(vc16Ctrys)],
 		ASN:   geoip.ASN(g*1_000_000 + k),
 		Proto: vc16Protos[(g*3+k)%len(vc16Protos)],
@@ -51,7 +53,8 @@ type vc16ConcUploader struct {
 
 	inflight  atomic.Int32
 	recordsN  *atomic.Int64
-	strictOwn bool // single refresher: owned devices have a determined last writer
+	progress  []atomic.Int64 // per recorder: number of its Record calls that have returned
+	strictOwn bool           // single refresher: owned devices have a determined last writer
 
 	delivered map[agd.DeviceID]int64
 	errs      []string
@@ -169,6 +172,27 @@ func (u *vc16ConcUploader) Upload(ctx context.Context, records Records) (err err
 				u.errf("upload snapshot: device %s: delivered %d + uploaded %d = %d queries, but the metadata is that of its query no. %d (%s): not the most recent one, or a count is off",
 					d, u.delivered[d], rec.Queries, got, want, vc16RecStr(&rec))
 			}
+
+			if fail {
+				// Coverage only: the device's last query recorded while this
+				// failing upload was in flight, against the held one.
+				for kk := int(u.progress[g].Load()); kk > k; kk-- {
+					if u.plan[g][kk-1] {
+						continue
+					}
+
+					switch held, now := vc16ConcMeta(g, k).Time, vc16ConcMeta(g, kk).Time; {
+					case now.Before(held):
+						u.classes["recorded-during-failed-upload-with-earlier-start-time"] = true
+					case now.Equal(held):
+						u.classes["recorded-during-failed-upload-with-equal-start-time"] = true
+					default:
+						u.classes["recorded-during-failed-upload-with-later-start-time"] = true
+					}
+
+					break
+				}
+			}
 		}
 	}
 
@@ -185,8 +209,9 @@ func (u *vc16ConcUploader) Upload(ctx context.Context, records Records) (err err
 
 func TestVerifC16Concurrent(t *testing.T) {
 	st := vstat.New("C16", "billstat.concurrent",
-		"rapid-drawn workloads on real goroutines under -race: 2..4 recorders (each with an own device plus one shared device), one refresher (sometimes two, overlapping) looping Refresh (every k-th call with an already-cancelled context) against an uploader with a cyclic S/F script that yields while in flight; conservation at quiescence, untorn metadata always, exact last-writer metadata for single-writer devices; non-trivial = some Record landed while a failing upload was in flight; distinct by workload shape",
-		"record-during-failed-upload", "record-during-successful-upload", "overlapping-uploads", "upload-with-done-context-nonempty")
+		"rapid-drawn workloads on real goroutines under -race: 2..4 recorders (each with an own device plus one shared device), one refresher (sometimes two, overlapping) looping Refresh (every k-th call with an already-cancelled context) against an uploader with a cyclic S/F script that yields while in flight; conservation at quiescence, untorn metadata always, exact last-writer (recording order) metadata for single-writer devices, whose start times are not monotone in recording order; non-trivial = some Record landed while a failing upload was in flight; distinct by workload shape",
+		"record-during-failed-upload", "record-during-successful-upload", "overlapping-uploads", "upload-with-done-context-nonempty",
+		"recorded-during-failed-upload-with-earlier-start-time", "recorded-during-failed-upload-with-later-start-time")
 	st.Finish(t)
 
 	rapid.Check(t, func(t *rapid.T) {
@@ -225,6 +250,7 @@ func TestVerifC16Concurrent(t *testing.T) {
 			outcomes:  outcomes,
 			yields:    yields,
 			recordsN:  recordsN,
+			progress:  make([]atomic.Int64, nG),
 			strictOwn: !two,
 			delivered: map[agd.DeviceID]int64{},
 			classes:   map[string]bool{},
@@ -257,6 +283,7 @@ func TestVerifC16Concurrent(t *testing.T) {
 					m := vc16ConcMeta(g, k)
 					r.Record(ctx, d, m.Ctry, m.ASN, m.Time, m.Proto)
 					recordsN.Add(1)
+					up.progress[g].Store(int64(k))
 					if k%pause[g] == 0 {
 						runtime.Gosched()
 					}
